@@ -19,8 +19,9 @@ import aw_datastore.storages.sqlite as SQ
 PROP = "C06"
 EVENT_WRITES = ["insert_one", "insert_many_new", "insert_many_120", "insert_many_upsert", "insert_many_upsert_only", "replace", "replace_last", "delete_live", "delete_missing"]
 EVENT_READS = ["get", "get_by_id", "get_eventcount"]
-BUCKET_OPS = ["create_bucket", "update_bucket", "delete_bucket"]
+BUCKET_OPS = ["create_bucket", "update_bucket", "delete_bucket", "delete_bucket_2001_events"]
 FAILING_BUCKET_OPS = ["delete_missing_bucket", "create_duplicate_bucket", "update_missing_bucket"]
+N_BIG = 2001
 LIMIT = 50  # documented batch size
 AGE_S = 10
 
@@ -132,6 +133,17 @@ def h_step(x, op, lazy=True, na=2, flush_first=False, other_store=False):
             clock.calls = []
             if x.sym:
                 mark = len(conn.log)
+        if op == "delete_bucket_2001_events":
+            # a populated bucket: 2001 (concrete) events, flushed, then the bucket is deleted
+            b.insert([C.mk_event(x, (1500000000000 + 1000 * i) * 1000, 500000, {"tag": i % 3}, aligned=True) for i in range(N_BIG)])
+            b.get_eventcount()
+            clock.n = 0
+            clock.calls = []
+            if x.sym:
+                mark = len(conn.log)
+            else:
+                del native_log[:]
+            w0 = 0
         if op == "insert_one":
             b.insert(ST.event_of_row(x, new[0]))
         elif op == "insert_many_new":
@@ -176,7 +188,7 @@ def h_step(x, op, lazy=True, na=2, flush_first=False, other_store=False):
             ds.create_bucket("C", "t", "c", "h", created=ST.T0)
         elif op == "update_bucket":
             ds.update_bucket("A", name="other")
-        elif op == "delete_bucket":
+        elif op in ("delete_bucket", "delete_bucket_2001_events"):
             ds.delete_bucket("A")
         else:
             raise ValueError(op)
